@@ -71,6 +71,8 @@ type Case struct {
 	AllBits  bool   `json:"all_bits,omitempty"` // every offset is changed with each of the 8 single-bit masks
 	Samples  []int  `json:"samples,omitempty"`  // sampled truncation lengths / offsets for blobs > 128 B (modulo len)
 	Retag    uint32 `json:"retag"`              // unknown cipher id for the tagged cipher
+	// Streams: several stream readers alive at once, generated consumption styles (streams.go)
+	Streams *StreamPlan `json:"streams,omitempty"`
 }
 
 // ---------------------------------------------------------------------------------
@@ -472,6 +474,7 @@ func Gen(rt *rapid.T) Case {
 		}
 	}
 	c.Retag = []uint32{1, 2, 0xFFFFFFFF, 0x01000000, 256}[hx.Uniform(rt, 5, "retag")]
+	c.Streams = genStreams(rt, c.Base == "disk")
 	return c
 }
 
@@ -727,6 +730,12 @@ func run(c Case) hx.Verdict {
 		return *f
 	}
 	if f := roundTrip("Writer (second write)", c.P2); f != nil {
+		return *f
+	}
+
+	// ---- several stream readers alive at once, generated consumption styles
+	step = 20
+	if f := runStreams(c, writer, encR, childR, base, prefix, plain, &v); f != nil {
 		return *f
 	}
 
